@@ -163,9 +163,10 @@ def _match(i):
 
 
 @cond(bounds='C-FIND provider (and the modality-worklist variant): message id, context id symbolic, k = 0..3 matches '
-             'with pending status 0xFF00 / 0xFF01 chosen per match (symbolic): every response and the final one',
-      family={'mwl': [0, 1]}, timeout=180)
-def find_responses(mid: int, h: int, k: int, w0: bool, w1: bool, w2: bool) -> bool:
+             'with pending status 0xFF00 / 0xFF01 chosen per match (symbolic): every response and the final one; the provider '
+             'thread encodes each queued response at once or only after the service has returned (symbolic schedule)',
+      family={'mwl': [0, 1]}, timeout=300)
+def find_responses(mid: int, h: int, k: int, w0: bool, w1: bool, w2: bool, lazy: bool) -> bool:
     """
     pre: 0 <= mid <= 65535 and 0 <= h <= 127 and 0 <= k <= 3
     post: _
@@ -176,7 +177,8 @@ def find_responses(mid: int, h: int, k: int, w0: bool, w1: bool, w2: bool) -> bo
     ae = AE(0, False)
     pend = [0xFF01 if w else 0xFF00 for w in (w0, w1, w2)][:k]
     ae.matches = [(_match(i), statuses.Status(p, dm.CFindRSPMessage)) for i, p in enumerate(pend)]
-    asce = RecAssoc(ae)
+    # schedule: the provider thread takes every queued response at once, or only after the service callable has returned
+    asce = RecAssoc(ae, lazy=lazy)
     rq = dm.CFindRQMessage()
     rq.message_id = mid
     rq.sop_class_uid = sop
